@@ -14,7 +14,9 @@ Scenario JSON: {"fl": "plain"|"ts", "kind": "soon"|"rel",
                          "pre" (before the loop is started)   [default: derived from mode],
                 "mode": who disposes: "onLoop" | "foreign" (other thread while the loop runs) | "notRunning" (the loop
                         never started yet, or — smode != pre — was stopped after running; restarted after the return),
-                "delay": ticks, "gap": ticks the user waits between schedule and dispose,
+                "delay": ticks (fractions allowed), "gap": ticks the user waits between schedule and dispose,
+                "via": "rel" + "delay0": 0.0|-1.0|"td0" (kind soon): scheduled through schedule_relative with a delay <= 0,
+                "registered": the user thread called asyncio.set_event_loop(loop) (the loop runs elsewhere),
                 "first": thread, "pre": [[step, to], ...]}
 """
 from __future__ import annotations
@@ -108,7 +110,7 @@ class SteppableLoop(asyncio.SelectorEventLoop):
 
         if ctl.me() is not None:
             w = nxt()
-            ctl.wait_until(wake, wake_at=None if w is None else int(w))
+            ctl.wait_until(wake, wake_at=w)  # the clock may stand between whole ticks
 
     # --- identification and logging of the action's handles
     def hid(self, h):
@@ -233,13 +235,14 @@ def run_case(case, wall=8.0, max_steps=4000):
 
     fl, kind, mode = case["fl"], case["kind"], case["mode"]
     smode = case.get("smode") or {"onLoop": "onLoop", "foreign": "foreign", "notRunning": "pre"}[mode]
-    delay = int(case.get("delay", 2))
-    gap = int(case.get("gap", 0))
+    delay = case.get("delay", 2)  # ticks = seconds on the loop clock; fractions allowed (sub-millisecond delays)
+    gap = case.get("gap", 0)
+    registered = bool(case.get("registered"))  # the foreign thread has the scheduler's loop REGISTERED as its current loop
     ctl = tc.Controller(TARGETS, first=case.get("first", 0), pre=case.get("pre", ()), wall=wall,
                         max_steps=max_steps, auto_clock=True)
     run = {"ts_rel": fl == "ts" and kind == "rel", "user_done": False, "cur_cb": None, "user_call_on_loop": False,
            "when": None, "returned": False, "starts": [], "disp": None, "loop_thread": None, "late": False,
-           "scheduled": False, "stop_req": False, "stopped": False}
+           "scheduled": False, "stop_req": False, "stopped": False, "in_sched": False}
     restore = None
     loop = None
     import logging
@@ -253,16 +256,28 @@ def run_case(case, wall=8.0, max_steps=4000):
 
             def action(scheduler, state=None):
                 me = ctl.me()
-                run["starts"].append({"thread": me.idx if me else -1, "clock": ctl.clock, "after_return": run["returned"]})
+                run["starts"].append({"thread": me.idx if me else -1, "clock": ctl.clock, "after_return": run["returned"],
+                                      "inside_schedule_call": run["in_sched"] is not False and run["in_sched"] == (me.idx if me else -1)})
                 if run["returned"]:
                     run["late"] = True
 
             def do_sched():
                 run["sched_clock"] = ctl.clock
-                if kind == "soon":
-                    run["disp"] = sched.schedule(action)
-                else:
-                    run["disp"] = sched.schedule_relative(float(delay), action)
+                me = ctl.me()
+                run["in_sched"] = me.idx if me else -1  # the thread executing the schedule call
+                try:
+                    if kind == "soon" and case.get("via") == "rel":
+                        # an already-due relative schedule: zero / negative delay
+                        d0 = case.get("delay0", 0.0)
+                        from datetime import timedelta
+
+                        run["disp"] = sched.schedule_relative(timedelta(0) if d0 == "td0" else float(d0), action)
+                    elif kind == "soon":
+                        run["disp"] = sched.schedule(action)
+                    else:
+                        run["disp"] = sched.schedule_relative(float(delay), action)
+                finally:
+                    run["in_sched"] = False
                 run["scheduled"] = True
 
             def do_disp():
@@ -313,6 +328,15 @@ def run_case(case, wall=8.0, max_steps=4000):
                 asyncio.BaseEventLoop.call_soon_threadsafe(loop, cb)
 
             def user_body():
+                if registered:
+                    asyncio.set_event_loop(loop)
+                try:
+                    user_body2()
+                finally:
+                    if registered:
+                        asyncio.set_event_loop(None)
+
+            def user_body2():
                 # --- schedule
                 if smode == "pre":
                     do_sched()
